@@ -515,7 +515,8 @@ class Output(object):
             if self.grid_style is not None:
                 args["linestyle"] = self.grid_style
             if self.grid_color is not None:
-                args["color"] = self.grid_color
+                # Accept the same spellings as -lc (e.g. [0.3,0,0])
+                args["color"] = verif.util.parse_colors(self.grid_color)[0] if "[" in str(self.grid_color) else self.grid_color
             if self.grid_lw is not None:
                 args["lw"] = self.grid_lw
             ax.grid('on', **args)
